@@ -1,6 +1,7 @@
 import Ptk.Proto
 import Ptk.Gen.PyChars
 import Ptk.Model.C02
+import Ptk.Model.C02Spec
 open Ptk Ptk.Py Ptk.Proto Ptk.C02
 
 /-
@@ -160,6 +161,36 @@ def handle (toks : List String) : String :=
     match decStr t, decNat c, decOptInt s, decOptInt e with
     | some t, some c, some s, some e => encInt (matchingBracket ⟨t, c⟩ s e)
     | _, _, _, _ => "bad-op"
+  | ["WS", t, c, n] =>
+    -- the declarative SPECIFICATION of the word motions (Ptk.Model.C02Spec); the specification of
+    -- find_previous_word_ending is printed where `prevWordEnding_refines_partial` applies
+    -- (a character under the cursor), elsewhere the model's value (known finding D1)
+    match decStr t, decNat c, decInt n with
+    | some t, some c, some n =>
+      let d : Doc := ⟨t, c⟩
+      let w := bools.flatMap fun W =>
+        let cl := cls reSp W
+        [kv s!"nwb{encBool W}" (encOI (specNextWordBeginning cl t c n)),
+         kv s!"nwe0{encBool W}" (encOI (specNextWordEnding cl t c false n)),
+         kv s!"nwe1{encBool W}" (encOI (specNextWordEnding cl t c true n)),
+         kv s!"pwb{encBool W}" (encOI (specPrevWordBeginning cl t c n)),
+         kv s!"pwe{encBool W}" (encOI (if c < t.length then specPrevWordEnding cl t c n
+                                        else prevWordEndingPos reSp d n W))]
+      unwords w
+    | _, _, _ => "bad-op"
+  | ["SC", t] =>
+    -- the regex scanners alone, on one string: all matches of the two word regexes, and the
+    -- anchored `^word` / `^word\\s*` matches
+    match decStr t with
+    | some t =>
+      let encRuns (l : List (Nat × Nat)) : String := encList (fun (p : Nat × Nat) => s!"{p.1}:{p.2}") l
+      let encON (o : Option Nat) : String := match o with | none => "N" | some n => toString n
+      unwords (bools.flatMap fun W =>
+        let cl := cls reSp W
+        [kv s!"runs{encBool W}" (encRuns (runs cl t)),
+         kv s!"cw{encBool W}" (encON (currentWordEnd cl t)),
+         kv s!"cww{encBool W}" (encON (currentWordEndWs cl reSp t))])
+    | none => "bad-op"
   | "K" :: rest =>
     match parseCacheOps rest.length rest with
     | some ops => " | ".intercalate ((cacheRun [] ops).1.map encCacheAns)
